@@ -95,6 +95,10 @@ func msgClass(m string) string {
 		return "interface-conversion"
 	case strings.Contains(m, "assignment to entry in nil map"):
 		return "nil-map-assign"
+	case strings.Contains(m, "hash of unhashable type"):
+		return "unhashable-key"
+	case strings.Contains(m, "reflect: Call using"):
+		return "reflect.Call:arg-type-mismatch"
 	case strings.Contains(m, "lexer step budget"):
 		return "budget"
 	}
